@@ -429,6 +429,8 @@ func (self *PathNode) handleChild(in *[]PathNode, lp *int, cp *int, p *binary.Bi
 	}
 	v := &con[l]
 	l += 1
+	// NOTICE: the slot may keep the children of a previous Load()
+	v.Next = v.Next[:0]
 
 	start := p.Read
 	buf := p.Buf
@@ -529,6 +531,8 @@ func (self *PathNode) handleUnknownChild(in *[]PathNode, lp *int, cp *int, p *bi
 	}
 	v := &con[l]
 	l += 1
+	// NOTICE: the slot may keep the children of a previous Load()
+	v.Next = v.Next[:0]
 
 	start := p.Read - tagL
 
@@ -783,7 +787,7 @@ func (self PathNode) marshal(p *binary.BinaryProtocol, rootLayer bool, opts *Opt
 			}
 			p.Buf = binary.FinishSpeculativeLength(p.Buf, pos)
 		}
-	case proto.BOOL, proto.INT32, proto.SINT32, proto.UINT32, proto.FIX32, proto.SFIX32, proto.INT64, proto.SINT64, proto.UINT64, proto.FIX64, proto.SFIX64, proto.FLOAT, proto.DOUBLE, proto.STRING, proto.BYTE:
+	case proto.BOOL, proto.ENUM, proto.INT32, proto.SINT32, proto.UINT32, proto.FIX32, proto.SFIX32, proto.INT64, proto.SINT64, proto.UINT64, proto.FIX64, proto.SFIX64, proto.FLOAT, proto.DOUBLE, proto.STRING, proto.BYTE:
 		p.Buf = append(p.Buf, self.Node.raw()...)
 	case proto.UNKNOWN:
 		// unknown bytes can also be marshaled, but we don't know its real type, so we can't read it, just skip it.
